@@ -11,7 +11,8 @@
 From Coq Require Import Floats.
 From EF Require Import Model.Base Gen.Tables Model.Lexer Model.Ast Model.Parser Model.Code Model.Value Model.Env
                        Model.Reflect Model.Compiler Model.Optimizer Model.VM Model.Api Spec.Moded.
-From EF Require Proofs.ApiProofs Proofs.StructProofs Proofs.ModedProofs.
+From EF Require Import Model.OptSafe.
+From EF Require Proofs.ApiProofs Proofs.StructProofs Proofs.ModedProofs Proofs.OptModedProofs.
 Open Scope N_scope.
 
 (* the program Prepare accepted comes from a well-moded tree *)
@@ -68,4 +69,22 @@ Proof.
   intros o e flag u p e' H fns obj fuel m out m' Hr Hcp.
   destruct (prepared_from_well_moded o e flag u p e' H) as (fuelc & ast & Hw & Hc).
   exact (ModedProofs.compiled_run_never_underflows fuelc ast u Hw Hc o fns obj fuel m out m' Hr Hcp).
+Qed.
+
+(* AFTER OPTIMISATION: whatever the validated optimizer makes of a prepared program (the check
+   compares its output with the implementation's optimized program on every case) never ends in
+   a machine-internal error either, as long as the calls of the unoptimized run return values *)
+Theorem prepared_optimized_never_underflows : forall o e flag u p e' p',
+  prepare o e flag = (PrepOk u p, e') ->
+  optimize_program_safe u = Some p' ->
+  forall fns obj m, polls m = None ->
+  (forall fuel', ModedProofs.calls_push o (pconsts u) (pfuncs u) fns obj fuel' (pmain u) 0
+                            (mkM [] (env_truncate (menv m) 0) (trace m) (polls m))) ->
+  forall fuel out m',
+  run_main o (pconsts p') (pfuncs p') fns obj fuel (pmain p') m = (out, m') ->
+  out <> OErr EInternal.
+Proof.
+  intros o e flag u p e' p' H Ho fns obj m Hp Hcp fuel out m' Hr.
+  destruct (prepared_from_well_moded o e flag u p e' H) as (fuelc & ast & Hw & Hc).
+  exact (OptModedProofs.optimized_run_never_underflows fuelc ast u p' Hw Hc Ho o fns obj m Hp Hcp fuel out m' Hr).
 Qed.
